@@ -51,6 +51,16 @@ def stabs (Lx Ly Lz : Nat) : List Coord :=
   grid3 (rB Lz) (rB Lx) (rD Ly) ++
   grid3 (rH Lz) (rH Lx) (rH Ly)
 
+/-- the cell locations of `get_stabilizer_coordinates` (the first two loop nests) -/
+def cellLocs (Lx Ly Lz : Nat) : List Coord :=
+  grid3 (rA Lz) (rA Lx) (rA Ly) ++ grid3 (rB Lz) (rB Lx) (rB Ly)
+
+/-- the Z-type part of a rank family (`Properties/C01Color3DCode.lean`, `z_generators_independent`):
+    every cell except a red, a yellow and a green one around the qubit `(6, 3, 4)` — the products of
+    all cells of one colour agree, which makes three cells redundant -/
+def selCells (Lx Ly Lz : Nat) : List Coord :=
+  (((cellLocs Lx Ly Lz).filter (· != [6, 2, 2])).filter (· != [6, 2, 6])).filter (· != [4, 4, 4])
+
 /-- `is_stabilizer` (without `stab_type`): `location in self.stabilizer_index` -/
 def isStabilizer (Lx Ly Lz : Nat) (loc : Coord) : Bool := isIn (stabs Lx Ly Lz) loc
 
